@@ -215,7 +215,8 @@ META = {
             "composition modulo the group for all 230 groups (a missing coset gives two normal forms for one crystal, e.g. the two "
             "rock-salt sublattices), the tie-breaking visits letters and atomic numbers in sorted order and never iterates a hash-"
             "ordered set, and the hashed id string depends only on space-group number, letters, species, multiplicities and the 2D "
-            "flag. Invariance of the actual outputs under re-presentation also depends on spglib and is not decided (weak claim).",
+            "flag. Invariance of the actual outputs under re-presentation also depends on spglib and is not decided (weak claim)."
+            " Also: tabulated letter permutations are the induced bijections (exact, all normalizers), index-space typing of the getters, application convention of the chosen normalizer, and every memo of the analyzer is cleared by reset() (results do not depend on what the analyzer object was used for before).",
     "note": "trusted: spglib Hall database; CPython set/dict semantics (sets of str are hash-seed ordered, dicts insertion ordered).",
     "technique": "exact closure obligation over the tables + canonical-order lint + backward slice of the id string",
 }
